@@ -586,11 +586,11 @@ def record(ck, stream, case, orc, extra_tags=()):
 
 
 # ------------------------------------------------------------------------------------------ sampled mode
-def check_sampled(ck, case, notes):
+def check_sampled(ck, case, notes, apis=("E", "V", "SE")):
     """Finite shots.  Deterministic outcomes (every branch an eigenstate with the same eigenvalues) -> exact checks."""
     rep = {"kind": "case", "case": jcase(case)}
     orc = oracle(case)
-    impl = run_impl(case, apis=("E", "V", "SE"))
+    impl = run_impl(case, apis=apis)
     feat = case.get("variant", feature(case))
     record(ck, "sampled", case, orc, [feat])
     bound = sum(abs(coef_c(t)) for t in case["op"]) + 1e-9
@@ -624,13 +624,16 @@ def check_sampled(ck, case, notes):
                     ck.violation(SIG_VAR_DMR, desc + " — it is the variance %.4g of the distribution WITHOUT post-selection" % unc, rep)
                 else:
                     ck.violation("C02/get_variance/cirq/sampled/%s" % feat, desc, rep)
-            else:
+            elif "SE" in impl:
                 s = impl["SE"]
                 if not (s[0] == "ok" and abs(s[1]) < 1e-9):
                     ck.violation("C02/get_standard_error/cirq/sampled/%s" % feat, "deterministic outcomes: standard error %r, must be 0" % (s[1:],), rep)
     else:
         # support only: statistical agreement with the exact distribution (never an alarm)
-        if r[0] == "ok" and impl["V"][0] == "ok" and impl["SE"][0] == "ok":
+        for api in ("E", "V", "SE"):
+            if api in impl and impl[api][0] == "exc" and impl["cfg"]["width_ok"]:
+                ck.violation("C02/%s/cirq/sampled/%s/raises" % (api, feat), "n_shots=%d: %s: %s on a generated case" % ((case["shots"],) + impl[api][1:]), rep)
+        if r[0] == "ok" and impl["V"][0] == "ok" and impl.get("SE", ("exc",))[0] == "ok":
             sigma = math.sqrt(max(orc["V"], 0) / case["shots"]) * max(1, len(case["op"]))
             notes["n"] += 1
             notes["within_5_sigma"] += int(abs(r[1] - orc["E"]) <= 5 * sigma + 1e-12)
@@ -641,7 +644,7 @@ def check_sampled(ck, case, notes):
 
 
 # ------------------------------------------------------------------------------------------ measurement_basis_gates
-def basis_gate_stream(ck):
+def basis_gate_stream(ck, gen_ok=True):
     """Model of measurement_basis_gates over the regenerated table vs the real function: every word on <= 3 of 4 qubits
     (exhaustive for 1 and 2 factors), and an unknown letter."""
     from tangelo.linq.helpers.circuits.measurement_basis import measurement_basis_gates
@@ -666,10 +669,14 @@ def basis_gate_stream(ck):
         except Exception as e:                                              # noqa
             impls.append("Err:" + type(e).__name__)
         exprs.append("show_basis_gates basis_table %s" % coq_list(["(%s, %s)" % (coq_Z(q), coq_str(l)) for q, l in t]))
-    model = ck.coq_eval("basis", PREAMBLE, exprs, shard=80, jobs=4)
+    model = model_eval(ck, "basis", exprs, shard=80, jobs=4) if gen_ok else None
+    if model is None:
+        model = [None] * len(terms)
     for t, a, b in zip(terms, impls, model):
         ck.case("basis-gates", json.dumps(t), nontrivial=any(l in "XY" for _, l in t), sample={"term": t, "gates": a}, tags=["len=%d" % len(t)])
-        if a != b:
+        if a.startswith("Err") and all(l in "XYZI" for _, l in t):
+            ck.violation("C02/measurement_basis_gates/raises", "term %s: %s" % (t, a), {"kind": "basis", "term": t})
+        if b is not None and a != b:
             ck.violation("C02/correspondence/measurement_basis_gates", "term %s: implementation %r, model %r" % (t, a, b),
                          {"kind": "basis", "term": t}, found_input=False)
         # property oracle on the real gates: B^dagger Z_supp B = P as matrices
@@ -685,7 +692,15 @@ def basis_gate_stream(ck):
 
 
 # ------------------------------------------------------------------------------------------ dispatch grid
-def dispatch_stream(ck):
+def py_dispatch(cfg):
+    """The routing the property statement documents (used only when the Coq model cannot be evaluated)."""
+    if (cfg["isv"] and not cfg["sv"]) or not cfg["width_ok"]:
+        return "raise", "raise"
+    r = "freq" if (cfg["noise"] or not cfg["sv"] or cfg["shots"] is not None or cfg["size0"]) else ("sv-native" if cfg["native"] else "sv-pauli")
+    return (r + "," + r, "split") if cfg["complex"] else (r, "freq")
+
+
+def dispatch_stream(ck, gen_ok=True):
     """Every configuration reachable with the installed backends: which private route runs, vs the model."""
     from tangelo.linq import Gate, Circuit
     ck.stream("dispatch", "grid backend x n_shots in {None,0,40} x noise x mixed x empty circuit x complex x initial statevector x width: "
@@ -705,11 +720,19 @@ def dispatch_stream(ck):
         cases.append({"n": 2, "prefix": [], "pass_isv": isv, "segs": segs, "op": op, "ctype": cx, "backend": be, "shots": shots,
                       "dmr": None, "noise": noise})
     exprs, impls = [], []
+    kept = []
     for c in cases:
-        impl = run_impl(c, apis=("E", "V"))
+        impl = safe_impl(ck, "dispatch", c, apis=("E", "V"))
+        if impl is None:
+            continue
+        kept.append(c)
         impls.append(impl)
         exprs.append("run_dispatch freq_cond sv_cond sv_exact_cond %s" % coq_cfg(impl["cfg"]))
-    model = ck.coq_eval("dispatch", PREAMBLE, exprs, shard=100, jobs=4)
+    cases = kept
+    model = model_eval(ck, "dispatch", exprs, shard=100, jobs=4) if gen_ok else None
+    if model is None:
+        ck.notes["dispatch_expected_from"] = "python restatement of the documented routing (Coq model not evaluable in this run)"
+        model = ["%s|%s" % py_dispatch(impl["cfg"]) for impl in impls]
     for c, impl, m in zip(cases, impls, model):
         route, vroute = m.split("|")
         ck.case("dispatch", json.dumps(jcase(c), sort_keys=True), nontrivial=True, sample={"cfg": impl["cfg"], "route": route, "vroute": vroute},
@@ -750,50 +773,46 @@ def exhaustive_words(n=2):
     return words
 
 
-def run(ck):
-    from translator import expval_tables
-    from translator.common import TranslateError
-    ck.trusted = ["Coq 8.16.1 kernel (coqc), vm_compute",
-                  "translator/expval_tables.py, translator/common.py (ast extraction of the basis table and of the dispatch conditions)",
-                  "hand-written model Linq/ExpPaths.v of backend.py's routes, tied by the correspondence run; interpretation of gate names (Linq/Interp.v)",
-                  "harness/np_sim.py (independent numpy reference: property oracle), harness/props/C02.py",
-                  "axioms: Reals (sig_forall_dec, sig_not_dec) and functional_extensionality_dep for the theorems stated over real amplitudes"]
-    ck.assumptions = ["distribution over basis INDICES (bit q = qubit q); the bitstring-key form of the parity function and the bit order of keys are C18 / C01",
-                      "the prepared state handed to the routes is the normalised (post-selected) vector: C10; cirq's native expectation_from_state_vector is external (correspondence only)",
-                      "finite n_shots: only exact invariants (deterministic outcomes, |estimate| <= sum |c_k|); statistical agreement is recorded as support",
-                      "exact streams: circuits on the pi/8 angle grid, dyadic coefficients; frequencies below Backend.freq_threshold (1e-10) make a case 'not evaluated' on the frequency route"]
+def guarded(ck, name, f, *args):
+    """Run one stream; a crash of the stream itself is reported (no input) and the other streams still run."""
+    import traceback
     try:
-        tabs = expval_tables.extract(REPO)
-        ck.write_gen("ExpvalTables", expval_tables.emit(tabs))
-        ck.notes["regenerated_from_source"] = {k: tabs[k] for k in (
-            "basis_table", "basis_else_raises", "freq_cond", "sv_cond", "sv_exact_cond", "prep_cond_e", "prep_cond_v", "e_complex_types",
-            "e_split_forwards_dmr", "sim_forwards_dmr_e", "v_real_forwards_dmr", "v_split_forwards_dmr", "sim_forwards_dmr_v")}
-    except TranslateError as e:
-        ck.violation("C02/translator", "translator no longer recognises the source: %s" % e, {"kind": "translator", "error": str(e)}, found_input=False)
-        return
-    res = ck.prove(timeout=1500)
-    if not res.ok:
-        ck.proof_violation(res)
+        return f(*args)
+    except Exception:                                                   # noqa
+        tb = traceback.format_exc()
+        ck.violation("C02/harness/stream-%s-crashed" % name, "stream %s could not complete: %s" % (name, tb.splitlines()[-1]),
+                     {"kind": "crash", "stream": name, "traceback": tb[-3000:]}, found_input=False)
+        return None
+
+
+def safe_impl(ck, stream, case, apis=("E", "V", "SE", "Ef", "Es")):
+    """run_impl; an exception outside the API calls proper (building the operator / circuit / backend inside tangelo)
+    is a violation carrying the case."""
     try:
-        import tangelo.linq  # noqa
-        from tangelo.linq.target.target_cirq import CirqSimulator  # noqa
-    except Exception as e:
-        ck.violation("C02/import", "tangelo.linq cannot be imported: %r" % e, {"kind": "import"}, found_input=False)
-        return
+        return run_impl(case, apis=apis)
+    except Exception as e:                                              # noqa
+        ck.violation("C02/%s/%s/exception-while-building-case" % (stream, case["backend"]),
+                     "tangelo raised %s: %s while building / running a generated case" % (type(e).__name__, str(e)[:200]),
+                     {"kind": "case", "case": jcase(case)})
+        return None
+
+
+def model_eval(ck, name, exprs, **kw):
+    """coq_eval that never stops the check: None when the model cannot be evaluated (reported, no input)."""
+    if not exprs:
+        return []
+    try:
+        return ck.coq_eval(name, PREAMBLE, exprs, **kw)
+    except Exception as e:                                              # noqa
+        ck.violation("C02/correspondence/model-not-evaluable/%s" % name, "the Coq model could not be evaluated for stream %s: %s" % (name, str(e)[-600:]),
+                     {"kind": "model", "stream": name}, found_input=False)
+        return None
+
+
+def stream_exact(ck, gen_ok, timing):
     import time
     T0 = time.time()
-    timing = ck.notes.setdefault("timing_s", {})
-    timing["prove"] = round(T0 - ck.t0, 1)
-    gen_ok = (ck.work / "gen" / "ExpvalTables.vo").exists()
-    rng = ck.rng
-    quick = ck.tier == "quick"
-    if gen_ok:
-        basis_gate_stream(ck)
-        dispatch_stream(ck)
-
-    timing["basis+dispatch"] = round(time.time() - T0, 1)
-    T0 = time.time()
-    # ---------------- exact mode
+    rng, quick = ck.rng, ck.tier == "quick"
     ck.stream("exact", "random (operator with identity / complex / 1-3 factor words, circuit on the pi/8 grid with 0-7 gates of every unitary kind, "
               "initial statevector from a prefix circuit, 0-2 post-selected MEASUREs, backend cirq / cirq-generic) with n_shots=None: "
               "get_expectation_value, get_variance, get_standard_error, both private routes vs numpy <psi|H|psi> and vs the exact Coq model "
@@ -824,8 +843,7 @@ def run(ck):
         n = rng.choice([1, 2, 2, 3, 3, 3, 4])
         be = rng.choice(["cirq", "cirq", "generic"])
         cases.append(rand_exact_case(rng, n, be, with_meas=(rng.random() < 0.25 and n >= 2), maxlen=3 if n < 4 else 4))
-    # designated edge cases: empty operator, identity only, empty circuit (+ isv), n_shots = 0, operator wider than the circuit,
-    # index beyond the width
+    # designated edge cases: empty operator, identity only, empty circuit (+ isv), n_shots = 0, operator wider than the circuit
     h0 = {"name": "H", "target": [0], "control": None, "k": None, "var": False}
     ry1 = {"name": "RY", "target": [1], "control": None, "k": 3, "var": False}
     for be in ("cirq", "generic"):
@@ -841,12 +859,13 @@ def run(ck):
         cases.append(dict(base, op=[[[[0, "X"], [1, "Y"], [2, "Z"]], Fraction(1), Fraction(1)]], ctype=True))
     exprs, todo = [], []
     n_coq = 0
-    coq_budget = 260 if quick else 2000
+    coq_budget = 150 if quick else 2000
     for case in cases:
         if any(len(t[0]) > case["n"] or any(q >= case["n"] for q, _ in t[0]) for t in case["op"]):
-            impl = run_impl(case, apis=("E", "V", "SE"))
+            impl = safe_impl(ck, "exact", case, apis=("E", "V", "SE"))
             ck.case("exact", json.dumps(jcase(case), sort_keys=True), nontrivial=False, tags=[case["backend"], "operator-wider-than-circuit"])
-            check_exact(ck, case, impl, None, None)
+            if impl is not None:
+                check_exact(ck, case, impl, None, None)
             continue
         try:
             orc = oracle(case)
@@ -856,25 +875,34 @@ def run(ck):
         if case["dmr"] is not None and orc["n_branches"] == 0:
             ck.not_evaluated += 1          # desired outcome has probability zero: simulate raises (C10)
             continue
-        impl = run_impl(case)
+        impl = safe_impl(ck, "exact", case)
         record(ck, "exact", case, orc, ["exhaustive-2q-words"] if case.get("exhaustive") else [])
+        if impl is None:
+            continue
+        # in the quick tier the exhaustive single-word cases go through Coq only on the generic backend (it exercises both
+        # Tangelo routes: Pauli-circuit overlap and frequencies); all of them do in the thorough tier
         use_coq = gen_ok and impl["cfg"]["width_ok"] and n_coq < coq_budget and (
-            case["n"] <= 3 or (case["n"] == 4 and sum(len(t[0]) for t in case["op"]) <= 4 and rng.random() < 0.3))
+            case["n"] <= 3 or (case["n"] == 4 and sum(len(t[0]) for t in case["op"]) <= 4 and rng.random() < 0.3)) and \
+            not (quick and case.get("exhaustive") and case["backend"] != "generic")
         if use_coq:
             n_coq += 1
             exprs.append(coq_case(case, impl["cfg"], "run_case_ps" if case["dmr"] is not None else "run_case"))
         todo.append((case, impl, orc, use_coq))
     timing["exact-impl"] = round(time.time() - T0, 1)
     T0 = time.time()
-    model = ck.coq_eval("cases", PREAMBLE, exprs, shard=max(8, (len(exprs) + 3) // 4) if quick else 60, jobs=4, timeout=1500) if exprs else []
-    it = iter(model)
+    model = model_eval(ck, "cases", exprs, shard=max(8, (len(exprs) + 3) // 4) if quick else 60, jobs=4, timeout=1500)
+    it = iter(model) if model is not None else None
     for case, impl, orc, use_coq in todo:
-        check_exact(ck, case, impl, orc, next(it) if use_coq else None)
-    ck.notes["exact_cases_evaluated_in_coq"] = n_coq
+        try:
+            check_exact(ck, case, impl, orc, next(it) if (use_coq and it is not None) else None)
+        except Exception as e:                                              # noqa
+            ck.violation("C02/harness/check_exact-crashed", "%s: %s" % (type(e).__name__, e), {"kind": "case", "case": jcase(case)}, found_input=False)
+    ck.notes["exact_cases_evaluated_in_coq"] = n_coq if model is not None else 0
     timing["exact-coq"] = round(time.time() - T0, 1)
-    T0 = time.time()
 
-    # index beyond the circuit width with few factors (passes the length check): must not return a number
+
+def stream_beyond(ck):
+    """A qubit index beyond the circuit width with few factors (passes the length check): must not return a number."""
     from tangelo.linq import Gate, Circuit
     from tangelo.toolboxes.operators import QubitOperator
     for be, shots, term in itertools.product(("cirq", "generic"), (None, 50), ("Z5", "X5", "Y0 Z4")):
@@ -887,7 +915,9 @@ def run(ck):
                 ck.violation("C02/%s/%s/index-beyond-width-accepted" % (api, be), "operator %s on a 3-qubit circuit returned %r" % (term, r[1]),
                              {"kind": "beyond", "backend": be, "shots": shots, "term": term, "api": api})
 
-    # ---------------- sympy (tiny)
+
+def stream_sympy(ck):
+    rng, quick = ck.rng, ck.tier == "quick"
     ck.stream("sympy", "SympySimulator, 1-2 qubits, <= 4 gates: get_expectation_value (native route), get_variance, frequency route vs numpy")
     n_sym = 24 if quick else 120
     for i in range(n_sym):
@@ -901,51 +931,70 @@ def run(ck):
             case["op"] = [t for t in case["op"] if all(l == "Z" for _, l in t[0])] or [[[[0, "Z"]], Fraction(3, 4), Fraction(0)]]
         try:
             orc = oracle(case)
-            impl = run_impl(case, apis=("E", "V", "Ef") if i % 2 == 0 else ("E",))
         except Exception as e:                                              # noqa
             ck.not_evaluated += 1
             continue
+        impl = safe_impl(ck, "sympy", case, apis=("E", "V", "Ef") if i % 2 == 0 else ("E",))
         record(ck, "sympy", case, orc)
-        check_exact(ck, case, impl, orc, None)
-    # the witness of the sympy finding, minimal
+        if impl is not None:
+            check_exact(ck, case, impl, orc, None)
+    # designated cases: the witness of the frequency-route finding (X term), and a Z term on an asymmetric 2-qubit state
+    # (bit order of the statevector handed to _statevector_to_frequencies)
+    h0 = {"name": "H", "target": [0], "control": None, "k": None, "var": False}
+    x0 = {"name": "X", "target": [0], "control": None, "k": None, "var": False}
     wit = {"n": 1, "prefix": [], "pass_isv": False, "segs": [[[h0], None]], "op": [[[[0, "X"]], Fraction(1), Fraction(0)]], "ctype": False,
            "backend": "sympy", "shots": None, "dmr": None}
-    impl = run_impl(wit, apis=("E", "V"))
-    orc = oracle(wit)
-    record(ck, "sympy", wit, orc, ["witness"])
-    check_exact(ck, wit, impl, orc, None)
-    # the witness of the bit-order finding: X on qubit 0 of 2, operator Z0, frequency route
-    x0 = {"name": "X", "target": [0], "control": None, "k": None, "var": False}
     wit2 = dict(wit, n=2, segs=[[[x0], None]], op=[[[[0, "Z"]], Fraction(1), Fraction(0)]])
-    impl = run_impl(wit2, apis=("E", "V", "Ef"))
-    orc = oracle(wit2)
-    record(ck, "sympy", wit2, orc, ["witness"])
-    check_exact(ck, wit2, impl, orc, None)
+    for w_, apis in ((wit, ("E", "V")), (wit2, ("E", "V", "Ef"))):
+        impl = safe_impl(ck, "sympy", w_, apis=apis)
+        orc = oracle(w_)
+        record(ck, "sympy", w_, orc, ["witness"])
+        if impl is not None:
+            check_exact(ck, w_, impl, orc, None)
 
-    timing["sympy"] = round(time.time() - T0, 1)
-    T0 = time.time()
-    # ---------------- sampled mode
+
+def stream_sampled(ck):
+    rng, quick = ck.rng, ck.tier == "quick"
     ck.stream("sampled", "n_shots=%d on the cirq backend: eigenstates of every term (product eigenstates in X/Y/Z bases, superposed spectators) prepared by "
               "a circuit / an initial statevector with an empty or non-empty circuit / with a MEASURE on a spectator (mixed state) / post-selected "
               "(desired_meas_result, incl. a measured qubit entangled with the operator's support) / with a zero-rate noise model: exact value, "
               "variance 0, standard error 0; random states: |estimate| <= sum |c_k| (+ statistical agreement as support)" % SHOTS)
     notes = {"n": 0, "within_5_sigma": 0, "variance_rel_dev_max": 0.0, "se_formula_mismatch": 0}
+    ck.notes["sampled_support_only"] = notes
     variants = ["plain", "isv-empty", "isv", "mixed", "dmr", "dmr-corr", "dmr-isv", "noise"]
     cheap = ("plain", "isv-empty", "isv")
+
+    def one(case, apis=("E", "V", "SE")):
+        try:
+            check_sampled(ck, case, notes, apis)
+        except Exception as e:                                              # noqa
+            ck.violation("C02/sampled/%s/exception" % case.get("variant", feature(case)), "%s: %s on a generated case" % (type(e).__name__, str(e)[:200]),
+                         {"kind": "case", "case": jcase(case)})
+    slow = ("dmr", "dmr-isv")
     for v in variants:
-        # the mixed-state / post-selected / noisy runs loop over the shots in Python (0.3-0.6 s per term): fewer of them in the quick tier
-        n_eig = (5 if v in cheap else 2) if quick else (60 if v in cheap else 25)
+        # mixed-state / noisy runs loop over the shots in Python (0.3-0.6 s per simulate); with desired_meas_result every simulate of
+        # the real code costs ~0.5 ms per shot (5 s at 10^4 shots, per term and per API): those use 10^3 shots in the quick tier
+        # and get_standard_error (a second get_variance) is left to the other variants
+        n_eig = (4 if v in cheap else 1) if quick else (60 if v in cheap else (8 if v in slow else 25))
+        if quick and v == "dmr-corr":
+            n_eig = 2
         for i in range(n_eig):
             n = rng.choice([2, 3, 3, 4]) if v in cheap or not quick else rng.choice([2, 3])
             case = eigen_case(rng, n, v)
-            if quick and v not in cheap:
+            if v in slow or (quick and v not in cheap):
                 case["op"] = case["op"][:2]
-            check_sampled(ck, case, notes)
+            if v in slow and quick:
+                case["shots"] = 1000
+            one(case, ("E", "V") if v in slow else ("E", "V", "SE"))
+    # designated: initial statevector |q0=1>, circuit H1 MEASURE1 (post-selected on 0), operator Z0 -> -1 exactly
+    g1 = lambda name, t: {"name": name, "target": [t], "control": None, "k": None, "var": False}  # noqa
+    one({"n": 2, "prefix": [g1("X", 0)], "pass_isv": True, "segs": [[[g1("H", 1)], [1, 0]], [[], None]], "op": [[[[0, "Z"]], Fraction(1), Fraction(0)]],
+         "ctype": False, "backend": "cirq", "shots": 1000, "dmr": "given", "noise": False, "variant": "dmr-isv"}, ("E", "V"))
     for i in range(10 if quick else 150):
         n = rng.choice([2, 3])
         case = rand_exact_case(rng, n, "cirq", with_meas=False, maxlen=2)
         case["shots"] = SHOTS
-        check_sampled(ck, case, notes)
+        one(case)
     # all 1- and 2-qubit words, sampled, on their eigenstates
     for w in exhaustive_words(2):
         for signs in itertools.product((1, -1), repeat=len(w)):
@@ -957,18 +1006,78 @@ def run(ck):
                     gates.append({"name": nm, "target": [q], "control": None, "k": None, "var": False})
             if not gates:
                 gates = [{"name": "Z", "target": [0], "control": None, "k": None, "var": False}]
-            case = {"n": 2, "prefix": [], "pass_isv": False, "segs": [[gates, None]], "op": [[w, Fraction(1), Fraction(0)]], "ctype": False,
-                    "backend": "cirq", "shots": SHOTS, "dmr": None, "variant": "exhaustive-2q-words"}
-            check_sampled(ck, case, notes)
-    timing["sampled"] = round(time.time() - T0, 1)
-    ck.notes["sampled_support_only"] = notes
+            one({"n": 2, "prefix": [], "pass_isv": False, "segs": [[gates, None]], "op": [[w, Fraction(1), Fraction(0)]], "ctype": False,
+                 "backend": "cirq", "shots": SHOTS, "dmr": None, "variant": "exhaustive-2q-words"})
+
+
+def run(ck):
+    import time
+    from translator import expval_tables
+    from translator.common import TranslateError
+    ck.trusted = ["Coq 8.16.1 kernel (coqc), vm_compute",
+                  "translator/expval_tables.py, translator/common.py (ast extraction of the basis table and of the dispatch conditions)",
+                  "hand-written model Linq/ExpPaths.v of backend.py's routes, tied by the correspondence run; interpretation of gate names (Linq/Interp.v)",
+                  "harness/np_sim.py (independent numpy reference: property oracle), harness/props/C02.py",
+                  "axioms: Reals (sig_forall_dec, sig_not_dec) and functional_extensionality_dep for the theorems stated over real amplitudes"]
+    ck.assumptions = ["distribution over basis INDICES (bit q = qubit q); the bitstring-key form of the parity function and the bit order of keys are C18 / C01",
+                      "the prepared state handed to the routes is the normalised (post-selected) vector: C10; cirq's native expectation_from_state_vector is external (correspondence only)",
+                      "finite n_shots: only exact invariants (deterministic outcomes, |estimate| <= sum |c_k|); statistical agreement is recorded as support",
+                      "exact streams: circuits on the pi/8 angle grid, dyadic coefficients; frequencies below Backend.freq_threshold (1e-10) make a case 'not evaluated' on the frequency route"]
+    keys = ("basis_table", "basis_else_raises", "freq_cond", "sv_cond", "sv_exact_cond", "prep_cond_e", "prep_cond_v", "e_complex_types",
+            "e_split_forwards_dmr", "sim_forwards_dmr_e", "v_real_forwards_dmr", "v_split_forwards_dmr", "sim_forwards_dmr_v")
+    # 1. tables: regenerated from /repo; on a translator failure the failure is reported and the run continues on the
+    #    last-known-good FALLBACK constants (translator/expval_tables.py), labelled as such in the evidence
+    source = "regenerated from /repo"
+    try:
+        tabs = expval_tables.extract(REPO)
+    except Exception as e:                                              # TranslateError, or a crash of the translator itself
+        ck.violation("C02/translator", "translator no longer recognises the source: %s: %s" % (type(e).__name__, e),
+                     {"kind": "translator", "error": str(e)}, found_input=False)
+        tabs = expval_tables.fallback()
+        source = "FALLBACK constants (translator failed: theorems and model correspondence below are about the last-known-good tables, not the current source)"
+    ck.write_gen("ExpvalTables", expval_tables.emit(tabs))
+    # 2. proofs
+    res = None
+    try:
+        res = ck.prove(timeout=1500)
+        if not res.ok:
+            ck.proof_violation(res)
+    except Exception as e:                                              # noqa
+        ck.violation("C02/proof/build", "the proof step could not run: %s" % str(e)[-800:], {"kind": "proof", "error": str(e)[-3000:]}, found_input=False)
+    gen_vo = ck.work / "gen" / "ExpvalTables.vo"
+    if not gen_vo.exists() and not source.startswith("FALLBACK"):
+        # the regenerated file does not type-check (already reported by the proof step): evaluate the model on the fallback
+        try:
+            p = ck.write_gen("ExpvalTables", expval_tables.emit(expval_tables.fallback()))
+            ck.coqc(p, 600)
+            source = "FALLBACK constants for the model correspondence (the regenerated file does not type-check; reported as a proof violation)"
+        except Exception:                                               # noqa
+            pass
+    gen_ok = gen_vo.exists()
+    ck.notes["tables_used"] = source if gen_ok else "none (generated tables could not be compiled): implementation-only oracles"
+    ck.notes["regenerated_from_source" if source.startswith("regenerated") else "fallback_tables"] = {k: tabs[k] for k in keys}
+    try:
+        import tangelo.linq  # noqa
+        from tangelo.linq.target.target_cirq import CirqSimulator  # noqa
+    except Exception as e:
+        ck.violation("C02/import", "tangelo.linq cannot be imported: %r" % e, {"kind": "import"}, found_input=False)
+        return
+    timing = ck.notes.setdefault("timing_s", {})
+    timing["prove"] = round(time.time() - ck.t0, 1)
+    # 3. streams: each on its own; the implementation-only oracles run whatever happened above
+    for name, f, args in (("basis-gates", basis_gate_stream, (ck, gen_ok)), ("dispatch", dispatch_stream, (ck, gen_ok)),
+                          ("exact", stream_exact, (ck, gen_ok, timing)), ("index-beyond-width", stream_beyond, (ck,)),
+                          ("sympy", stream_sympy, (ck,)), ("sampled", stream_sampled, (ck,))):
+        T0 = time.time()
+        guarded(ck, name, f, *args)
+        timing[name] = round(time.time() - T0, 1)
     ck.notes["theorem_status"] = {
         "full": ["C02_parity_is_Z_expectation", "C02_parity_mask_formulation", "C02_basis_matrices", "C02_basis_rotation_word", "C02_statevector_route",
                  "C02_routes_agree", "C02_complex_split", "C02_split_parts_real", "C02_variance_pm1", "C02_variance_pm1_list", "C02_variance_reported",
                  "C02_standard_error", "C02_dispatch_total", "C02_dispatch_value", "C02_dispatch_variance", "C02_postselected_scaling",
                  "C02_mixed_state_frequencies"],
         "not_covered_by_a_theorem": ["statistics of finite-shot estimates", "cirq / sympy native expectation (external)",
-                                     "bitstring keys <-> basis indices (C01, C18)", "get_variance with desired_meas_result (defect: post-selection dropped)"]}
+                                     "bitstring keys <-> basis indices (C01, C18)"]}
 
 
 # ------------------------------------------------------------------------------------------ replay
